@@ -24,6 +24,19 @@ import (
 
 func init() { register("C09", C09) }
 
+// c09locale selects the locale through LC_ALL and puts a contradicting value of lower
+// priority into LANG (a UTF-8 one under a legacy LC_ALL and vice versa): the output must
+// follow LC_ALL.
+func c09locale(lcAll string) {
+	os.Setenv("LC_ALL", lcAll)
+	os.Unsetenv("LC_CTYPE")
+	if strings.Contains(strings.ToUpper(lcAll), "UTF-8") {
+		os.Setenv("LANG", "en_US.ISO8859-1")
+	} else {
+		os.Setenv("LANG", "en_US.UTF-8")
+	}
+}
+
 // xtextDecoder adapts an x/text encoding to the emulator's Decoder.
 func xtextDecoder(enc xenc.Encoding) vt.Decoder {
 	d := enc.NewDecoder()
@@ -122,6 +135,8 @@ func C09(r *core.Run) {
 	r.Assumptions = []string{"A1-A4 of C01", "generated content, titles and URLs contain no '%' or '$', so either in the output is parameter-language residue", "must-blank is a lower bound that no reasonable width table contradicts"}
 
 	// ---- (1) histories ----
+	c09locale("C.UTF-8")
+	defer func() { os.Setenv("LC_ALL", "C.UTF-8"); os.Unsetenv("LANG"); os.Unsetenv("LC_CTYPE") }()
 	armed := map[string]bool{"C09": true}
 	nh := r.Pick(40, 1000)
 	sessions := sessionsFor("asis", "direct")
@@ -143,7 +158,7 @@ func C09(r *core.Run) {
 	})
 
 	// the same histories in an 8-bit locale (legacy charset output, ACS glyphs)
-	os.Setenv("LC_ALL", "en_US.ISO8859-1")
+	c09locale("en_US.ISO8859-1")
 	sessions8 := sessionsFor("asis")
 	for _, se := range sessions8 {
 		se.dec = xtextDecoder(charmap.ISO8859_1)
@@ -166,7 +181,7 @@ func C09(r *core.Run) {
 			}
 		}
 	})
-	os.Setenv("LC_ALL", "C.UTF-8")
+	c09locale("C.UTF-8")
 
 	// ---- (3) static capability strings ----
 	for _, ti := range ECMAEntries() {
@@ -221,9 +236,9 @@ func C09(r *core.Run) {
 	}
 	r.Set("must_blank_runes", len(blanks))
 	r.Set("other_runes_swept", len(others))
-	defer os.Setenv("LC_ALL", "C.UTF-8")
+	defer func() { os.Setenv("LC_ALL", "C.UTF-8"); os.Unsetenv("LANG") }()
 	for li, lo := range locs {
-		os.Setenv("LC_ALL", lo.lc)
+		c09locale(lo.lc)
 		ti := Pristine(lo.entry)
 		if li > 0 && r.Quick() {
 			// 8-bit locales in quick: all blanks, a thinner sample of the rest
